@@ -219,6 +219,14 @@ def run_hypothesis(prop, strategy, max_examples, seed, rec, shrink=True, statefu
     except (Violation, _StopShrinking):
         v = last['v']
         return {'facet': v.facet, 'detail': v.detail, 'case': jsonable(v.case), 'extra': jsonable(v.extra)}
+    except hypothesis.errors.Flaky:
+        # the same generated input violated the property once and not when Hypothesis ran it again: the harness is
+        # deterministic (no clock, no RNG, fresh directories), so the code under test kept state between cases
+        v = last.get('v')
+        if v is None:
+            raise
+        return {'facet': v.facet, 'detail': v.detail + ' [outcome depended on the cases executed before it: not reproduced '
+                'when the same input was run again in this process]', 'case': jsonable(v.case), 'extra': jsonable(v.extra)}
     return None
 
 
